@@ -1,5 +1,149 @@
-import S3V.Model.SigV4
-import S3V.Spec.SigV4
-/-! # C05 (placeholder while the theorems are being written) -/
+import S3V.Thm.SigV4Tamper
+/-!
+# C05 — SigV4 header authentication accepts exactly the correctly signed requests (property theorems only)
+
+Model: `S3V/Model/SigV4.lean` (literal mirror of `sig_v4/*`, `http/ordered_*`, `ops/signature.rs`);
+specification: `S3V/Spec/SigV4.lean` (from the AWS documents). `sha256hex` and `hmac` are arbitrary functions in
+every statement. Quantifiers: all requests (any byte strings, any number of headers / parameters), no size bound.
+The theorems marked `_partial` exclude, by the explicit decidable predicates `wf` / `wfHeaderAuth`, exactly the
+regions in which the unchanged code deviates from the specification; each excluded region has a kernel-checked
+counterexample in `S3V/Findings/C05.lean` and a witness replayed on the real code (`known_findings.d/sigv4.json`).
+-/
 namespace S3V.C05
+open S3V S3V.SigV4
+
+/-- FULL statement: the canonical request the code builds is the specified one for every request.
+    False on the unchanged tree (`Findings.C05`: inner space runs, repeated header lines, absent signed headers,
+    duplicate query names with unsorted values). -/
+def C05_canon_impl_eq_spec_full : Prop :=
+  ∀ (sha256hex : Bytes → Bytes) (onMissing : Bytes → Option Bytes) (r : Req),
+    canonImpl sha256hex onMissing r = canonSpec sha256hex r
+
+/-- the canonical request `create_canonical_request` produces from what `v4_check_header_auth` feeds it equals the
+    specification's canonical request, for every request outside the finding classes (`wf`), whatever the hash and
+    whatever the `on_missing` fallback -/
+theorem C05_canon_impl_eq_spec_partial (sha256hex : Bytes → Bytes) (onMissing : Bytes → Option Bytes) (r : Req)
+    (h : wf r = true) : canonImpl sha256hex onMissing r = canonSpec sha256hex r :=
+  canon_impl_eq_spec sha256hex onMissing r h
+
+/-- the verdict logic, exactly: `v4_check_header_auth` accepts, and attributes the request to the access key,
+    region and service of the credential, iff the `Authorization` header parses, the service is s3/sts, the payload
+    mode is admissible, the key is known, `x-amz-date` parses, and the recomputed signature is the presented one
+    (no well-formedness hypothesis: this is about the model alone) -/
+theorem C05_accept_conditions (sha256hex : Bytes → Bytes) (hmac : Bytes → Bytes → Bytes)
+    (look : Bytes → Option Bytes) (c : Ctx) (ak region service : Bytes) :
+    v4CheckHeaderAuth sha256hex hmac (some look) c = .accept ak region service ↔
+      ∃ a secret d payload, HeaderChecks look c a secret d payload ∧
+        a.credential.accessKey = ak ∧ a.credential.region = region ∧ a.credential.service = service ∧
+        headerSignature sha256hex hmac c a secret d payload = a.signature :=
+  header_accept_iff sha256hex hmac look c ak region service
+
+/-- FULL statement of "accepted iff the presented signature is the specified one under the scope of the
+    credential": false on the unchanged tree (`Findings.C05`: the algorithm token and the scope date are not
+    checked, plus the canonicalisation classes). -/
+def C05_verdict_iff_full : Prop :=
+  ∀ (sha256hex : Bytes → Bytes) (hmac : Bytes → Bytes → Bytes) (look : Bytes → Option Bytes) (c : Ctx)
+    (raw : List (Bytes × Bytes)) (ak region service : Bytes), orderedHeaders raw = some c.hs →
+    (v4CheckHeaderAuth sha256hex hmac (some look) c = .accept ak region service ↔
+      ∃ a secret d payload, HeaderChecks look c a secret d payload ∧ a.algorithm = b!"AWS4-HMAC-SHA256" ∧
+        a.credential.accessKey = ak ∧ a.credential.region = region ∧ a.credential.service = service ∧
+        a.signature = SigV4Spec.signature sha256hex hmac secret d.fmtIso8601 ⟨a.credential.date, region, service⟩
+          ((c.req raw a.signedHeaders payload).toSpec sha256hex))
+
+/-- for every context outside the finding classes (`wfHeaderAuth`), for arbitrary hash and MAC: the request is
+    accepted as (access key, region, service) iff the checks pass and the presented signature is
+    `Spec.signature` of the request under that key's secret, the timestamp of `x-amz-date` and the credential scope -/
+theorem C05_verdict_iff_partial (sha256hex : Bytes → Bytes) (hmac : Bytes → Bytes → Bytes)
+    (look : Bytes → Option Bytes) (c : Ctx) (raw : List (Bytes × Bytes)) (ak region service : Bytes)
+    (hraw : orderedHeaders raw = some c.hs) (hwf : wfHeaderAuth c raw = true) :
+    v4CheckHeaderAuth sha256hex hmac (some look) c = .accept ak region service ↔
+      ∃ a secret d payload, HeaderChecks look c a secret d payload ∧ a.algorithm = b!"AWS4-HMAC-SHA256" ∧
+        a.credential.accessKey = ak ∧ a.credential.region = region ∧ a.credential.service = service ∧
+        a.signature = SigV4Spec.signature sha256hex hmac secret d.fmtIso8601 ⟨a.credential.date, region, service⟩
+          ((c.req raw a.signedHeaders payload).toSpec sha256hex) :=
+  header_verdict_iff_spec sha256hex hmac look c raw ak region service hraw hwf
+
+/-- the canonical request determines the signed view — method, path, the canonical parameter list, each signed
+    header's canonical value, the payload line — by unique line splitting; side conditions: no component contains a
+    line feed and header names contain no colon (`LineSafe`, guaranteed by `http::Method`, `HeaderName`,
+    `HeaderValue::to_str`) -/
+theorem C05_canon_injective {r₁ r₂ : SigV4Spec.Request} (h₁ : LineSafe r₁) (h₂ : LineSafe r₂)
+    (h : SigV4Spec.canonicalRequest r₁ = SigV4Spec.canonicalRequest r₂) : signedView r₁ = signedView r₂ :=
+  canon_injective h₁ h₂ h
+
+/-- the encoding of path and parameters loses nothing: equal encodings, equal bytes -/
+theorem C05_uri_encode_injective (keepSlash : Bool) {a b : Bytes}
+    (h : SigV4Spec.uriEncode keepSlash a = SigV4Spec.uriEncode keepSlash b) : a = b :=
+  uriEncode_injective keepSlash h
+
+/-- altering any signed component changes the specified signature, PROVIDED (hypothesis, not axiom) SHA-256 and
+    HMAC do not collide on the two concrete messages involved -/
+theorem C05_tamper_changes_signature (sha256hex : Bytes → Bytes) (hmac : Bytes → Bytes → Bytes) (secret timestamp : Bytes)
+    (s : SigV4Spec.Scope) (r r' : SigV4Spec.Request) (h₁ : LineSafe r) (h₂ : LineSafe r')
+    (hview : signedView r ≠ signedView r') (hNoCollision : NoCollision sha256hex hmac secret timestamp s r r') :
+    SigV4Spec.signature sha256hex hmac secret timestamp s r ≠ SigV4Spec.signature sha256hex hmac secret timestamp s r' :=
+  tamper_changes_signature sha256hex hmac secret timestamp s r r' h₁ h₂ hview hNoCollision
+
+/-- hence a tampered request that still presents the signature of the original `r` is refused: if the context `c`
+    (outside the finding classes) presents `Spec.signature … r` but the request it carries has another signed view
+    than `r`, it is not accepted under that secret, timestamp and scope -/
+theorem C05_tamper_rejected (sha256hex : Bytes → Bytes) (hmac : Bytes → Bytes → Bytes)
+    (look : Bytes → Option Bytes) (c : Ctx) (raw : List (Bytes × Bytes)) (ak region service : Bytes)
+    (hraw : orderedHeaders raw = some c.hs) (hwf : wfHeaderAuth c raw = true)
+    (r : SigV4Spec.Request) (hr : LineSafe r)
+    (hacc : v4CheckHeaderAuth sha256hex hmac (some look) c = .accept ak region service) :
+    ∃ a secret d payload, HeaderChecks look c a secret d payload ∧
+      (LineSafe ((c.req raw a.signedHeaders payload).toSpec sha256hex) →
+       NoCollision sha256hex hmac secret d.fmtIso8601 ⟨a.credential.date, region, service⟩ r
+         ((c.req raw a.signedHeaders payload).toSpec sha256hex) →
+       a.signature = SigV4Spec.signature sha256hex hmac secret d.fmtIso8601 ⟨a.credential.date, region, service⟩ r →
+       signedView r = signedView ((c.req raw a.signedHeaders payload).toSpec sha256hex)) := by
+  obtain ⟨a, secret, d, payload, hc, _, _, _, _, hsig⟩ :=
+    (header_verdict_iff_spec sha256hex hmac look c raw ak region service hraw hwf).mp hacc
+  refine ⟨a, secret, d, payload, hc, ?_⟩
+  intro hsafe hnc hpres
+  apply Classical.byContradiction
+  intro hne
+  exact tamper_changes_signature sha256hex hmac secret d.fmtIso8601 _ r _ hr hsafe hne hnc (hpres.symm.trans hsig)
+
+/-- the canonical request is a function of the signed view: every rewrite of a request that keeps the signed view
+    keeps the canonical request, hence the specified signature, hence (by `C05_verdict_iff_partial`) the verdict -/
+theorem C05_canon_equiv_invariant {r r' : SigV4Spec.Request} (h : signedView r = signedView r') :
+    SigV4Spec.canonicalRequest r = SigV4Spec.canonicalRequest r' :=
+  canonical_of_view_eq h
+
+/-- header rewrites that keep the signed view: reordering lines of different names, changing the case of names,
+    adding or removing unsigned lines — anything that leaves, for each signed name, the sequence of `Trim`med values
+    of the lines carrying that name (case-insensitively) unchanged -/
+theorem C05_header_rewrites_invariant {r r' : SigV4Spec.Request} (hm : r.method = r'.method) (hp : r.path = r'.path)
+    (hq : r.query = r'.query) (hs : r.signedHeaders = r'.signedHeaders) (hpl : r.payload = r'.payload)
+    (hh : ∀ n ∈ r.signedHeaders,
+      (r.headers.filter fun h => SigV4Spec.lowercase h.1 = n).map (fun h => SigV4Spec.trimAll h.2) =
+      (r'.headers.filter fun h => SigV4Spec.lowercase h.1 = n).map (fun h => SigV4Spec.trimAll h.2)) :
+    SigV4Spec.canonicalRequest r = SigV4Spec.canonicalRequest r' :=
+  canonical_of_view_eq (view_headers_congr hm hp hq hs hpl hh)
+
+/-- white space added before or after a header value does not change its canonical value -/
+theorem C05_edge_whitespace_invariant (ws₁ ws₂ v : Bytes) (h₁ : ∀ c ∈ ws₁, SigV4Spec.isWs c = true)
+    (h₂ : ∀ c ∈ ws₂, SigV4Spec.isWs c = true) : SigV4Spec.trimAll (ws₁ ++ v ++ ws₂) = SigV4Spec.trimAll v :=
+  trimAll_edge ws₁ ws₂ v h₁ h₂
+
+/-- percent-spelling: the code canonicalises the DEcoded path and parameters, and decoding undoes the canonical
+    spelling, so every spelling that decodes to the same bytes yields the same request -/
+theorem C05_percent_spelling_invariant (keepSlash : Bool) (s : Bytes) :
+    pctDecode (SigV4Spec.uriEncode keepSlash s) = s :=
+  pctDecode_uriEncode keepSlash s
+
+/-! non-vacuity: a realistic request meets `wf`; the finding shapes do not -/
+def exampleReq : Req :=
+  { method := b!"PUT", path := b!"/bkt/a b/é",
+    qs := [(b!"prefix", b!"a/b"), (b!"prefix", b!"c"), (b!"x-id", b!"")],
+    headers := [(b!"Host", b!"s3.example.com"), (b!"x-amz-meta-a", b!"  two words "), (b!"X-Amz-Date", b!"20130524T000000Z"),
+                (b!"x-unsigned", b!"a  b")],
+    signed := [b!"x-amz-date", b!"host", b!"x-amz-meta-a"], payload := .unsigned }
+
+example : wf exampleReq = true := by decide
+example : wf { exampleReq with signed := [b!"host", b!"x-unsigned"] } = false := by decide
+example : wf { exampleReq with qs := [(b!"prefix", b!"c"), (b!"prefix", b!"a/b")] } = false := by decide
+
 end S3V.C05
